@@ -78,6 +78,30 @@ theorem limit_zero_rejects_all (n : Nat) (sched : List Nat) : inFlight (run sys 
   have := inflight_le_limit 0 (Int.le_refl 0) n sched
   omega
 
+/-- ROOM FOR EVERYBODY: when the limit is at least the number of callers, NOBODY is ever refused — under every
+    schedule (the counterpart of `limit_zero_rejects_all`; a throttle that refuses below its limit, e.g. one that
+    compares with `≥`, or reads the gauge twice, breaks this) -/
+theorem large_limit_never_rejects (m : Int) (n : Nat) (hmn : (n : Int) ≤ m) (sched : List Nat) :
+    ∀ l ∈ (run sys (init m n) sched).locals, l ≠ .rejecting ∧ l ≠ .finished false := by
+  have h := inv_all_schedules sys (fun c => Roomy m n c.shared c.locals)
+    (fun c i l s' l' hc hi hs => hc.step hmn hi hs) sched (init m n) (Roomy.init m n)
+  exact h.2.2.1
+
+/-- hence at quiescence every one of the n callers has run the protected function -/
+theorem large_limit_all_run (m : Int) (n : Nat) (hmn : (n : Int) ≤ m) (sched : List Nat)
+    (hq : allFinished (run sys (init m n) sched) = true) :
+    ∀ l ∈ (run sys (init m n) sched).locals, l = .finished true := by
+  intro l hl
+  have h1 := large_limit_never_rejects m n hmn sched l hl
+  have h2 := (List.all_eq_true.mp hq) l hl
+  cases l with
+  | finished b => cases b with
+    | true => rfl
+    | false => exact (h1.2 rfl).elim
+  | _ => simp at h2
+
+/-- non-vacuity: limit 2, two callers interleaved step by step: both run -/
+example : (run sys (init 2 2) [0, 1, 0, 1, 0, 1, 0, 1]).locals = [.finished true, .finished true] := by decide
 /-- non-vacuity: limit 1, three callers, a schedule in which the second and third are refused while the first is inside -/
 example : (run sys (init 1 3) [0, 0, 1, 1, 2, 2, 1, 2, 0, 0]).locals = [.finished true, .finished false, .finished false] := by decide
 
